@@ -428,12 +428,10 @@ func (self *Compiler) compileExpr(node ast.AnalyzedExpression) {
 			}
 		}
 
+		// If no literal matched, control continues at the default branch,
+		// which also has to drop the control value.
 		default_branch := self.mangleLabel("match_default")
-		if node.DefaultArmAction != nil {
-			self.insert(newOneStringInstruction(Opcode_Jump, default_branch), node.Range)
-		} else {
-			self.insert(newOneStringInstruction(Opcode_Jump, after_branch), node.Range)
-		}
+		self.insert(newOneStringInstruction(Opcode_Jump, default_branch), node.Range)
 
 		// Each individual branch
 		for i, option := range node.Arms {
@@ -444,11 +442,13 @@ func (self *Compiler) compileExpr(node ast.AnalyzedExpression) {
 			self.insert(newOneStringInstruction(Opcode_Jump, after_branch), node.Range)
 		}
 
+		self.insert(newOneStringInstruction(Opcode_Label, default_branch), node.Range)
+		// Drop the control value, like every literal branch does
+		self.insert(newPrimitiveInstruction(Opcode_Drop), node.Range)
 		if node.DefaultArmAction != nil {
-			self.insert(newOneStringInstruction(Opcode_Label, default_branch), node.Range)
 			self.compileExpr(*node.DefaultArmAction)
-			self.insert(newOneStringInstruction(Opcode_Jump, after_branch), node.Range)
 		}
+		self.insert(newOneStringInstruction(Opcode_Jump, after_branch), node.Range)
 
 		self.insert(newOneStringInstruction(Opcode_Label, after_branch), node.Range)
 	case ast.TryExpressionKind:
